@@ -70,14 +70,14 @@ listing `x, y, z`, and `.permids` has gaps), indices `.ids = 4 7 1`; nodes
 listed parent first and numbered against the order in which the loader rebuilds them;
 roots `2` and `-4` (a complemented root).  `lx ly lz` are the labels of the three
 variables in the mode `vi`; `ov` the optional `.orderedvarnames`. -/
-def dddmpExWith (vi : Int) (ov : Option (List Tok)) (lx ly lz : Tok) : DddmpFile := {
+def dddmpExWith (vi : Int) (ov : Option (List DddmpTok)) (lx ly lz : DddmpTok) : DddmpFile := {
   varinfo := some vi, nnodes := some 4, nvars := some 6, nsuppvars := some 3,
   suppvarnames := some [.str "x", .str "y", .str "z"], orderedvarnames := ov,
   ids := some [4, 7, 1], permids := some [2, 5, 0], nroots := some 2, rootids := some [2, -4],
   nodes := [⟨2, lz, 2, 4, 3⟩, ⟨1, .str "T", 1, 0, 0⟩, ⟨4, lx, 0, 1, -3⟩, ⟨3, ly, 1, 1, -1⟩] }
 
 /-- the six variables of the writer, by level -/
-def dddmpExOv : List Tok := [.str "z", .str "w", .str "x", .str "q", .str "r", .str "y"]
+def dddmpExOv : List DddmpTok := [.str "z", .str "w", .str "x", .str "q", .str "r", .str "y"]
 
 /-- `.varinfo 0`, names from `.suppvarnames` -/
 def dddmpChain : DddmpFile := dddmpExWith 0 none (.num 4) (.num 7) (.num 1)
@@ -106,7 +106,7 @@ no receiving manager, and a refused file (exception) returns nothing. -/
 theorem C16_load_spec (f : DddmpFile) (hf : f.WF) :
     ∃ m umap, loadDddmpU f = .ok (m, umap) ∧ loadDddmp f = .ok m ∧ Inv m ∧
       (∀ x ∈ f.nodes, ∃ r, dictGet umap x.u = some r ∧ m.tbl.Mem r ∧
-        ∀ α, den m.tbl r (asgOf m.tbl α) = evalFile f α x.u) ∧
+        ∀ α, den m.tbl r (dddmpAsgOf m.tbl α) = evalFile f α x.u) ∧
       DddmpRootsDenote f m ∧
       GoodState m (fun _ => 0) ∧ m.sched = [] ∧ (∀ r ∈ m.roots, m.tbl.Mem r) := by
   obtain ⟨m, umap, h1, h2, h3, h4, h5, h6, h7⟩ := dddmpLoad_good_of_foaSpec foaSpec f hf
@@ -172,9 +172,9 @@ theorem C16_order_kept (f : DddmpFile) (hf : f.WF) :
 example : dddmpChain.WF := dddmpChain_wf
 
 /-- with `.orderedvarnames` (distinct names): the order of the loaded manager IS that list -/
-theorem C16_order_ordered (f : DddmpFile) (hf : f.WF) (hH : DddmpHeaderOK f) {ov : List Tok}
+theorem C16_order_ordered (f : DddmpFile) (hf : f.WF) (hH : DddmpHeaderOK f) {ov : List DddmpTok}
     (ho : f.orderedvarnames = some ov) :
-    ∃ m, loadDddmp f = .ok m ∧ m.nvars = ov.length ∧ ∀ (k : Nat) (var : Tok), ov[k]? = some var →
+    ∃ m, loadDddmp f = .ok m ∧ m.nvars = ov.length ∧ ∀ (k : Nat) (var : DddmpTok), ov[k]? = some var →
       m.tbl.vars[var.show]? = some k ∧ m.tbl.l2v[k]? = some var.show := by
   obtain ⟨m, h, -, -, -, -, -, -, hL⟩ := C16_load_good f hf
   obtain ⟨i2p, levels, roots, _, hh, _⟩ := id hf
@@ -186,10 +186,10 @@ example : dddmpEx0o.WF ∧ DddmpHeaderOK dddmpEx0o ∧ dddmpEx0o.orderedvarnames
 /-- without `.orderedvarnames`: `suppvarnames[j]` sits at the rank of `permids[j]` among the
 `.permids` — gaps closed, relative order kept -/
 theorem C16_order_supp (f : DddmpFile) (hf : f.WF) (hH : DddmpHeaderOK f)
-    (hv3 : f.varinfo ≠ some 3) (ho : f.orderedvarnames = none) {sv : List Tok}
+    (hv3 : f.varinfo ≠ some 3) (ho : f.orderedvarnames = none) {sv : List DddmpTok}
     (hs : f.suppvarnames = some sv) {permids : List Int} (hp : f.permids = some permids) :
     ∃ m, loadDddmp f = .ok m ∧ m.nvars = permids.length ∧
-      ∀ (j : Nat) (var : Tok) (k : Int), sv[j]? = some var → permids[j]? = some k →
+      ∀ (j : Nat) (var : DddmpTok) (k : Int), sv[j]? = some var → permids[j]? = some k →
         ∃ i : Nat, (sortInts permids)[i]? = some k ∧ m.tbl.vars[var.show]? = some i ∧
           m.tbl.l2v[i]? = some var.show := by
   obtain ⟨m, h, -, -, -, -, -, -, hL⟩ := C16_load_good f hf
@@ -337,11 +337,11 @@ theorem C16_format (f : DddmpFile) (hf : f.WF) (hH : DddmpHeaderOK f) (hn : f.na
 level): roots = the file's root entries, where the line labelled `var` is a node of the
 variable `var`; the order of the loaded manager is `.orderedvarnames` -/
 theorem C16_varinfo3 (f : DddmpFile) (hf : f.WF) (hH : DddmpHeaderOK f)
-    (hv : f.varinfo = some 3) {ov : List Tok} (ho : f.orderedvarnames = some ov) :
+    (hv : f.varinfo = some 3) {ov : List DddmpTok} (ho : f.orderedvarnames = some ov) :
     ∃ m, loadDddmp f = .ok m ∧ GoodState m (fun _ => 0) ∧
       DddmpRootsDenoteBy (evalFormat f) f m ∧
       DddmpShannon f (fun info var => info = var ∧ var ∈ ov) (evalFormat f) ∧
-      m.nvars = ov.length ∧ ∀ (k : Nat) (var : Tok), ov[k]? = some var →
+      m.nvars = ov.length ∧ ∀ (k : Nat) (var : DddmpTok), ov[k]? = some var →
         m.tbl.vars[var.show]? = some k ∧ m.tbl.l2v[k]? = some var.show := by
   have hn : f.named = true := by simp [DddmpFile.named, ho]
   obtain ⟨m, h, hg, -, -, -, -, hr, hL⟩ := C16_load_good f hf
@@ -356,12 +356,12 @@ theorem C16_varinfo3 (f : DddmpFile) (hf : f.WF) (hH : DddmpHeaderOK f)
 variable `orderedvarnames[permids[j]]`; the order of the loaded manager is `.orderedvarnames` -/
 theorem C16_varinfo0_ordered (f : DddmpFile) (hf : f.WF) (hH : DddmpHeaderOK f)
     (hv : f.varinfo = some 0) {ids permids : List Int} (hi : f.ids = some ids)
-    (hp : f.permids = some permids) {ov : List Tok} (ho : f.orderedvarnames = some ov) :
+    (hp : f.permids = some permids) {ov : List DddmpTok} (ho : f.orderedvarnames = some ov) :
     ∃ m, loadDddmp f = .ok m ∧ GoodState m (fun _ => 0) ∧
       DddmpRootsDenoteBy (evalFormat f) f m ∧
       DddmpShannon f (fun info var => ∃ (j : Nat) (i : Int) (k : Nat), info = .num i ∧
         ids[j]? = some i ∧ permids[j]? = some (k : Int) ∧ ov[k]? = some var) (evalFormat f) ∧
-      m.nvars = ov.length ∧ ∀ (k : Nat) (var : Tok), ov[k]? = some var →
+      m.nvars = ov.length ∧ ∀ (k : Nat) (var : DddmpTok), ov[k]? = some var →
         m.tbl.vars[var.show]? = some k ∧ m.tbl.l2v[k]? = some var.show := by
   have hn : f.named = true := by simp [DddmpFile.named, ho]
   have hnd : ids.Nodup := by have := hH.ids hv; rw [hi] at this; exact this
@@ -377,12 +377,12 @@ theorem C16_varinfo0_ordered (f : DddmpFile) (hf : f.WF) (hH : DddmpHeaderOK f)
 of `.permids`) is a node of the variable `orderedvarnames[k]` -/
 theorem C16_varinfo1_ordered (f : DddmpFile) (hf : f.WF) (hH : DddmpHeaderOK f)
     (hv : f.varinfo = some 1) {permids : List Int} (hp : f.permids = some permids)
-    {ov : List Tok} (ho : f.orderedvarnames = some ov) :
+    {ov : List DddmpTok} (ho : f.orderedvarnames = some ov) :
     ∃ m, loadDddmp f = .ok m ∧ GoodState m (fun _ => 0) ∧
       DddmpRootsDenoteBy (evalFormat f) f m ∧
       DddmpShannon f (fun info var => ∃ k : Nat, info = .num (k : Int) ∧ (k : Int) ∈ permids ∧
         ov[k]? = some var) (evalFormat f) ∧
-      m.nvars = ov.length ∧ ∀ (k : Nat) (var : Tok), ov[k]? = some var →
+      m.nvars = ov.length ∧ ∀ (k : Nat) (var : DddmpTok), ov[k]? = some var →
         m.tbl.vars[var.show]? = some k ∧ m.tbl.l2v[k]? = some var.show := by
   have hn : f.named = true := by simp [DddmpFile.named, ho]
   have hnd : permids.Nodup := by
@@ -399,14 +399,14 @@ theorem C16_varinfo1_ordered (f : DddmpFile) (hf : f.WF) (hH : DddmpHeaderOK f)
 variable `suppvarnames[j]`; `suppvarnames[j]` gets the rank of `permids[j]` as its level -/
 theorem C16_varinfo0_supp (f : DddmpFile) (hf : f.WF) (hH : DddmpHeaderOK f)
     (hv : f.varinfo = some 0) (ho : f.orderedvarnames = none) {ids permids : List Int}
-    (hi : f.ids = some ids) (hp : f.permids = some permids) {sv : List Tok}
+    (hi : f.ids = some ids) (hp : f.permids = some permids) {sv : List DddmpTok}
     (hs : f.suppvarnames = some sv) :
     ∃ m, loadDddmp f = .ok m ∧ GoodState m (fun _ => 0) ∧
       DddmpRootsDenoteBy (evalFormat f) f m ∧
       DddmpShannon f (fun info var => ∃ (j : Nat) (i : Int), info = .num i ∧ ids[j]? = some i ∧
         sv[j]? = some var) (evalFormat f) ∧
       m.nvars = permids.length ∧
-      ∀ (j : Nat) (var : Tok) (k : Int), sv[j]? = some var → permids[j]? = some k →
+      ∀ (j : Nat) (var : DddmpTok) (k : Int), sv[j]? = some var → permids[j]? = some k →
         ∃ i : Nat, (sortInts permids)[i]? = some k ∧ m.tbl.vars[var.show]? = some i ∧
           m.tbl.l2v[i]? = some var.show := by
   have hn : f.named = true := by simp [DddmpFile.named, hs]
@@ -423,13 +423,13 @@ theorem C16_varinfo0_supp (f : DddmpFile) (hf : f.WF) (hH : DddmpHeaderOK f)
 the variable `suppvarnames[j]`; `suppvarnames[j]` gets the rank of `permids[j]` as its level -/
 theorem C16_varinfo1_supp (f : DddmpFile) (hf : f.WF) (hH : DddmpHeaderOK f)
     (hv : f.varinfo = some 1) (ho : f.orderedvarnames = none) {permids : List Int}
-    (hp : f.permids = some permids) {sv : List Tok} (hs : f.suppvarnames = some sv) :
+    (hp : f.permids = some permids) {sv : List DddmpTok} (hs : f.suppvarnames = some sv) :
     ∃ m, loadDddmp f = .ok m ∧ GoodState m (fun _ => 0) ∧
       DddmpRootsDenoteBy (evalFormat f) f m ∧
       DddmpShannon f (fun info var => ∃ (j : Nat) (k : Int), info = .num k ∧
         permids[j]? = some k ∧ sv[j]? = some var) (evalFormat f) ∧
       m.nvars = permids.length ∧
-      ∀ (j : Nat) (var : Tok) (k : Int), sv[j]? = some var → permids[j]? = some k →
+      ∀ (j : Nat) (var : DddmpTok) (k : Int), sv[j]? = some var → permids[j]? = some k →
         ∃ i : Nat, (sortInts permids)[i]? = some k ∧ m.tbl.vars[var.show]? = some i ∧
           m.tbl.l2v[i]? = some var.show := by
   have hn : f.named = true := by simp [DddmpFile.named, hs]
@@ -462,8 +462,8 @@ example : [dddmpChain, dddmpEx1s, dddmpEx0o, dddmpEx1o, dddmpEx3].map
 `¬(x ∨ ¬y)`, for every assignment of the names (the composed statement, instantiated; the
 right-hand sides are evaluated on all 8 assignments of `x, y, z`) -/
 example : ∃ m, loadDddmp dddmpChain = .ok m ∧ GoodState m (fun _ => 0) ∧
-    (∃ r ∈ m.roots, ∀ α, den m.tbl r (asgOf m.tbl α) = evalFormat dddmpChain α 2) ∧
-    (∃ r ∈ m.roots, ∀ α, den m.tbl r (asgOf m.tbl α) = evalFormat dddmpChain α (-4)) ∧
+    (∃ r ∈ m.roots, ∀ α, den m.tbl r (dddmpAsgOf m.tbl α) = evalFormat dddmpChain α 2) ∧
+    (∃ r ∈ m.roots, ∀ α, den m.tbl r (dddmpAsgOf m.tbl α) = evalFormat dddmpChain α (-4)) ∧
     ∀ x y z : Bool,
       evalFormat dddmpChain (fun s => if s = "x" then x else if s = "y" then y else z) 2 =
         (if z then (x || !y) else y) ∧
@@ -504,7 +504,7 @@ def dddmpWitnessAsg : String → Bool := fun s => s == "a"
 /-- on the witness file the loader returns the roots `3` (= `a`) and `-2` (= `¬ b`) -/
 theorem dddmpWitness_load :
     (loadDddmp dddmpWitness).toOption.map (fun m =>
-      (m.roots, den m.tbl 3 (asgOf m.tbl dddmpWitnessAsg), den m.tbl (-2) (asgOf m.tbl dddmpWitnessAsg),
+      (m.roots, den m.tbl 3 (dddmpAsgOf m.tbl dddmpWitnessAsg), den m.tbl (-2) (dddmpAsgOf m.tbl dddmpWitnessAsg),
         evalFile dddmpWitness dddmpWitnessAsg 2, evalFile dddmpWitness dddmpWitnessAsg (-3))) =
     some ([3, -2], true, true, true, true) := by
   decide +kernel
@@ -540,7 +540,7 @@ false of it, on the same witness file.  (Not part of the claims about the curren
 
 theorem dddmpWitness_prefix_eval :
     (loadDddmpPreFix dddmpWitness).toOption.map (fun m =>
-      (m.roots, den m.tbl 2 (asgOf m.tbl dddmpWitnessAsg), den m.tbl (-3) (asgOf m.tbl dddmpWitnessAsg),
+      (m.roots, den m.tbl 2 (dddmpAsgOf m.tbl dddmpWitnessAsg), den m.tbl (-3) (dddmpAsgOf m.tbl dddmpWitnessAsg),
         evalFile dddmpWitness dddmpWitnessAsg 2)) = some ([2, -3], false, false, true) := by
   decide +kernel
 
